@@ -13,6 +13,7 @@ type PropSpec struct {
 	Quick       []string // build configurations verified in the quick tier
 	Thorough    []string
 	Flow        []string // additional flow/frame engines: "ct", "globals", "fresh"
+	Ground      bool     // include the ground obligations about the constant tables
 	Lemmas      []string // named lemmas (contract-file `lemma` declarations) that must be discharged
 	Trusted     []string
 	Assumptions []string
@@ -28,30 +29,88 @@ var commonTrusted = []string{
 	"built-in exact meanings of math/bits.Mul64/Add64 and encoding/binary.LittleEndian.{Uint32,Uint64,PutUint32,PutUint64}",
 }
 
+var curveAll = ConeItem{Pkg: "internal/curve25519"}
+var modmAll = ConeItem{Pkg: "internal/modm"}
+var geAll = ConeItem{Pkg: "internal/ge25519"}
+var edVerify = ConeItem{Pkg: ".", Funcs: []string{"verify", "Verify", "VerifyWithOptions", "verifyWithOptionsNoPanic", "scMinimal", "isSmallOrderVartime", "(*Options).unwrap", "checkHash", "(*Options).HashFunc"}}
+var edSign = ConeItem{Pkg: ".", Funcs: []string{"NewKeyFromSeed", "sign", "Sign", "(PrivateKey).Sign", "(*Options).unwrap", "checkHash", "(*Options).HashFunc"}}
+var edKeys = ConeItem{Pkg: ".", Funcs: []string{"GenerateKey", "NewKeyFromSeed", "(PrivateKey).Public", "(PrivateKey).Seed", "(PrivateKey).Equal", "(PublicKey).Equal"}}
+var edAll = ConeItem{Pkg: "."}
+var xAll = ConeItem{Pkg: "extra/x25519"}
+
+const techGovc = "contract-based deductive verification of the real Go code: VCs from go/ssa (govc), contracts in //@ comment files, obligations discharged by z3/cvc5, an exact polynomial normaliser (alg), a linear-form interval back end (lin), ground evaluation of table facts and provenance (flow) checks"
+
+var bridgeTrusted = []string{
+	"B1-B12 (bridge lemmas): the field-level polynomials proved of addP1p1, doubleP1p1, nielsAdd2*, pnielsAdd*, geSub, p1p1To*, fullToPniels, ProjectiveToExtended, Pack and Unpack* implement the twisted-Edwards group law / encoding; carried as assume-ensures clauses of those functions, not machine-checked",
+	"M2, M4: the group axioms used (GADD, GDBL, N0TON, NEGN*) are true of the curve group; instantiated on ground terms by govc",
+	"M6: SHA-512 is a function of its input bytes (uninterpreted sha512: Bytes -> 64 bytes)",
+}
+
 var props = map[string]*PropSpec{
-	"C04": {
-		ID:        "C04",
-		Cone:      []ConeItem{{Pkg: ".", Funcs: []string{"scMinimal"}}},
-		Quick:     twoLayouts,
-		Thorough:  allSix,
-		Technique: "contract-based deductive verification: scMinimal's postcondition result == (S < L) over the real code (loop unrolled with a concrete counter), discharged by z3/cvc5; call sites in verify/VerifyBatch are obligations of C01/C06",
-		Trusted:   []string{"M4 (L is the prime order of B) for the uniqueness reading: two accepted S, S' with equal (key, message, R) satisfy L | 8(S-S'), hence S = S' because both are below L"},
-		Assumptions: []string{"uniqueness of the accepted S is a consequence of S < L together with the verification equation (lemma, M4); it is not a separate obligation"},
+	"C01": {
+		ID: "C01", Cone: []ConeItem{edVerify, geAll, modmAll, curveAll}, Quick: twoLayouts, Thorough: allSix, Technique: techGovc,
+		Trusted: append([]string{
+			"DoubleScalarmultVartime: the group-level result lc2(P, s1, s2) is an assumed postcondition (sliding-window digit property and Horner invariant not discharged); memory safety, magnitudes and frame of its body are proved",
+			"M3: for p = 5 (mod 8) the candidate root decides squareness (reading of `decodable`)",
+		}, bridgeTrusted...),
+		Assumptions: []string{"non-nil *Options", "the predicate is stated with [8](([h](-A) + [S]B) - R) = O, the form the code evaluates; its equality with [8]([S]B - [h]A - R) is the abelian group law (M2)"},
 	},
-	"C19": {
-		ID:        "C19",
-		Cone:      []ConeItem{{Pkg: "internal/modm"}},
-		Quick:     twoLayouts,
-		Thorough:  []string{"default", "force32bit", "386"},
-		Technique: "contract-based deductive verification: VCs over go/ssa of the real functions, discharged by z3/cvc5, an exact polynomial normaliser and a linear-form interval back end",
+	"C05": {
+		ID: "C05", Cone: []ConeItem{edVerify, geAll, modmAll, curveAll}, Quick: twoLayouts, Thorough: allSix, Technique: techGovc,
+		Trusted: append([]string{"as C01; monotonicity (default accepted => ZIP-215 accepted) and 'differ only on small-order triples' are propositional consequences of the single contract vspec(.., zip) and are not separate obligations"}, bridgeTrusted...),
+		Assumptions: []string{"batch side of the property is not covered (VerifyBatch is not under a functional contract)"},
+	},
+	"C02": {
+		ID: "C02", Cone: []ConeItem{edSign, geAll, modmAll, curveAll}, Quick: twoLayouts, Thorough: allSix, Technique: techGovc,
+		Trusted: append([]string{"RFC 8032 5.1.5/5.1.6 transcribed as the spec functions sec_a, nonce, hchal (byte-level clamping, SHA-512 inputs in RFC order); encpt(mulB(k)) stands for the encoding of [k]B"}, bridgeTrusted...),
+		Assumptions: []string{"in the default (amd64) configuration the assembly table lookup has an assumed contract; the noasm/force32bit configurations verify the Go lookup against the ground-validated table"},
+	},
+	"C07": {
+		ID: "C07", Cone: []ConeItem{{Pkg: ".", Funcs: []string{"(*Options).unwrap", "checkHash", "(*Options).HashFunc", "verifyWithOptionsNoPanic", "VerifyWithOptions", "verify", "sign", "(PrivateKey).Sign", "Sign"}}}, Quick: twoLayouts, Thorough: allSix, Technique: techGovc,
+		Trusted: []string{"M6 and collision resistance of SHA-512 for 'never accepted under a different pair'; what is proved is that the hashed string is dom2(f,c) || R || A || M with the RFC 8032 encoding of (f, len(c), c), the variant/context selection table, and the exact refusal conditions"},
+		Assumptions: []string{"VerifyBatch's context error / false entries are not covered (not under contract)"},
+	},
+	"C09": {
+		ID: "C09", Cone: []ConeItem{{Pkg: ".", Funcs: []string{"isSmallOrderVartime", "verify"}}, geAll, curveAll}, Quick: twoLayouts, Thorough: allSix, Technique: techGovc,
+		Trusted: append([]string{"M4: exactly eight points have order dividing 8; IsNeutralVartime's field-level result (x = 0 and y = z) is proved, its reading as 'is the identity' is a bridge"}, bridgeTrusted...),
+	},
+	"C10": {
+		ID: "C10", Cone: []ConeItem{geAll, curveAll, {Pkg: "extra/x25519", Funcs: []string{"EdPublicKeyToX25519", "edwardsToMontgomeryX"}}}, Quick: twoLayouts, Thorough: allSix, Technique: techGovc,
+		Trusted: append([]string{"M3; the rejection direction of UnpackNegativeVartime (returns false => no root) is not proved, only: result => v*x^2 = u with the stated parity, y taken mod 2^255, z = 1, t = x*y"}, bridgeTrusted...),
+	},
+	"C11": {
+		ID: "C11", Cone: []ConeItem{xAll, {Pkg: "internal/ge25519", Funcs: []string{"ScalarmultBaseNiels"}}, {Pkg: "internal/modm", Funcs: []string{"ExpandRaw", "ContractWindow4"}}, curveAll}, Quick: twoLayouts, Thorough: allSix, Technique: techGovc,
+		Trusted: append([]string{"golang.org/x/crypto/curve25519.ScalarMult = RFC 7748 X25519 (generic path)", "M5: the birational map sends [k]B to X25519(k, 9), so the Edwards fast path agrees with the ladder; ScalarBaseMult's result u([clamp k]B) is an assumed reading of the proved field computation"}, bridgeTrusted...),
+	},
+	"C12": {
+		ID: "C12", Cone: []ConeItem{xAll, {Pkg: ".", Funcs: []string{"NewKeyFromSeed"}}, {Pkg: "internal/ge25519", Funcs: []string{"UnpackVartime", "UnpackNegativeVartime"}}, curveAll}, Quick: twoLayouts, Thorough: allSix, Technique: techGovc,
+		Trusted: append([]string{"M5 for the commutation statement: it follows from NewKeyFromSeed's, ScalarBaseMult's and EdPublicKeyToX25519's contracts together with dec(enc Q) = Q; not a separate machine-checked lemma"}, bridgeTrusted...),
+	},
+	"C13": {
+		ID: "C13", Cone: []ConeItem{edAll, xAll, geAll, modmAll, curveAll}, Quick: twoLayouts, Thorough: allSix, Technique: techGovc,
+		Trusted: []string{"panics of library functions are modelled (index/slice/nil/explicit panic, subtle.ConstantTimeCopy length check)"},
+		Assumptions: []string{"non-nil options; accessors on well-formed keys", "VerifyBatch is not covered by this check (not under contract): the batch clauses of the property are not claimed"},
+	},
+	"C14": {
+		ID: "C14", Cone: []ConeItem{edKeys}, Quick: twoLayouts, Thorough: allSix, Technique: techGovc,
+		Trusted: []string{"io.ReadFull fills the buffer from the reader or fails (model); crypto/rand.Reader is non-nil"},
+	},
+	"C16": {
+		ID: "C16", Cone: []ConeItem{geAll, {Pkg: "internal/modm", Funcs: []string{"ContractWindow4", "ContractSlidingWindow"}}, curveAll}, Quick: []string{"default", "force32bit", "noasm"}, Thorough: allSix, Technique: techGovc, Ground: true,
+		Trusted: append([]string{
+			"fixed-base: proved P3(r) == mulB(s) for every canonical s < 2^255 from the callees' contracts, the 256 ground-validated table facts and ground instances of GADD/GDBL/N0TON; the assembly lookup (amd64) has an assumed contract",
+			"double-base: the group-level result is an ASSUMED postcondition of DoubleScalarmultVartime (see C01); its memory safety, magnitude discipline and frame are proved",
+		}, bridgeTrusted...),
+	},
+	"C20": {
+		ID: "C20", Flow: []string{"ct"}, Quick: []string{"default", "force32bit", "noasm", "appengine"}, Thorough: allSix,
+		Technique: "contract-based information-flow verification of the real Go code: every function of the signing/key-generation/X25519 base-point cone carries a secrecy clause (ct) in the //@ contract file; govc checks each body against its own clause over go/ssa (no branch, index, division, allocation size or variable-time callee depends on secret data; calls are checked against the callee's clause only) and scans the assembly selector mechanically",
 		Trusted: []string{
-			"ContractSlidingWindow: only the bit expansion, memory safety and the frame are proved of the body; the digit property of its second phase (digits odd or zero, |digit| < 2^(w-1), weighted sum = scalar for scalars < 2^253) is an explicit assumption (assume-ensures) for its callers",
-			"termination is not proved",
+			"the Go compiler does not introduce secret-dependent branches or table look-ups; integer ALU/SSE instructions have data-independent latency",
+			"crypto/sha512, crypto/subtle, math/bits, encoding/binary and golang.org/x/crypto/curve25519.ScalarMult are constant-time in their data",
+			"lengths, capacities, addresses and dynamic types are public",
 		},
-		Assumptions: []string{
-			"modm.Mul on the 30-bit layout is specified for x[8] < 2^13 (x < 2^253): q1[8] keeps only 22 of the top 24 bits of x*y, so the function is exact only for x*y < 2^510; every caller in the module passes a reduced first operand (call-site obligations under C02/C06)",
-			"ContractWindow4 is specified for scalars below 2^255 (top limb bound), which is what its callers supply",
-		},
+		Assumptions: []string{"memory is abstracted to one secrecy bit per allocation site / parameter (sound over-approximation); x25519.X25519's generic path branches on whether the output is all-zero (a deliberate declassification) and is outside the property's observation points"},
 	},
 	"C18": {
 		ID:        "C18",
